@@ -79,6 +79,7 @@ TNextEv ==
     /\ CASE Ev.res = "state" -> cur < N /\ Transition
          [] Ev.res = "nil"   -> cur = N /\ UNCHANGED vars
          [] Ev.res = "err"   -> "next" \in Faults /\ UNCHANGED vars
+         [] OTHER            -> FALSE
 
 TCancel == IsEvent("Cancel") /\ Cancel
 
@@ -105,7 +106,9 @@ TReturn ==
          [] Ev.kind = "nextErr" -> NextFailed
          [] Ev.kind = "initErr" -> InitFailed
          [] Ev.kind = "ctxErr"  -> ExitCancelled
-    /\ outcome' = [kind |-> Ev.kind, state |-> Ev.state]
+         [] OTHER               -> FALSE
+    /\ outcome'.kind = Ev.kind
+    /\ Ev.kind = "final" => outcome'.state = Ev.state     \* every error returns a nil state
 
 \* the ticker goroutine ending on ctx.Done() leaves no trace
 Silent1 == l' = l /\ TickerStop
